@@ -32,7 +32,11 @@ impl SortFormat {
                 let b_num: f64 = b
                     .parse()
                     .map_err(|_| anyhow!("\"{}\" is not a valid number", b))?;
-                Ok(a_num.total_cmp(&b_num))
+                // Compare numerically (so that `0` and `-0` are equal neighbours); only NaN, which
+                // has no numeric order, falls back to the total order.
+                Ok(a_num
+                    .partial_cmp(&b_num)
+                    .unwrap_or_else(|| a_num.total_cmp(&b_num)))
             }
         }
     }
